@@ -82,16 +82,37 @@ ASSUMPTIONS = [
 ]
 BUDGET = {"quick": {"soft_s": 150}, "thorough": {"soft_s": 900}}
 MIN_EVALUATIONS = {"quick": 2000, "thorough": 50000}
-REQUIRED_COUNTERS = ["eval:state_mismatch", "eval:class_invariant", "eval:result_mismatch", "eval:flatten_law", "eval:shared_storage", "eval:bystander_changed", "eval:exception", "eval:invalid_accepted", "eval:metadata_leak", "eval:returned_value_changed", "eval:argument_modified", "eval:partial_failure_state"]
+REQUIRED_COUNTERS = ["eval:state_mismatch", "eval:class_invariant", "eval:result_mismatch", "eval:flatten_law", "eval:shared_storage", "eval:bystander_changed", "eval:exception", "eval:invalid_accepted", "eval:metadata_leak", "eval:returned_value_changed", "eval:argument_modified", "eval:partial_failure_state", "eval:neutral_call_changed_state"]
 EXHAUSTIVE = {"quick": False, "thorough": False}
+
+
+# size thresholds: > 1e5 cells, a cell with > 1e6 rows, > 64 fields (short histories from op lists that stay affordable)
+_BIG_OPS = ["get_slice", "set_slice_list", "get_data_fancy", "get_list", "iadd", "imul", "field_roundtrip", "field_set_flat", "field_assign", "flatten", "add_field_str",
+            "remove_field_str", "remove_fields_list", "copy", "flatten_modify_restore", "set_cell_item", "schema_churn", "get_cell", "set_data_fancy"]  # fmt: skip
+BIG = [
+    {"name": "cells_2d", "ndim": 2, "shape": [350, 300], "nf": 2, "fill": 0.01},
+    {"name": "cells_1d", "ndim": 1, "shape": [100003], "nf": 3, "fill": 0.02},
+    {"name": "cells_3d", "ndim": 3, "shape": [50, 41, 50], "nf": 2, "fill": 0.01},
+    {"name": "long_cell", "ndim": 1, "shape": [3], "nf": 2, "fill": 1.0, "long_rows": 1200007},
+    {"name": "fields_70", "ndim": 2, "shape": [3, 2], "nf": 70, "fill": 0.8},
+    {"name": "fields_130", "ndim": 1, "shape": [4], "nf": 130, "fill": 0.8},
+]
 
 
 def plan(tier, seed):
     """every enumerated sequence is run densely observed and sparsely observed (see the module docstring)"""
     specs = []
+    for rep_ in range(1 if tier == "quick" else 5):
+        for b in BIG:
+            specs.append(dict(b, kind="big", obs="dense", depth=5 if tier == "quick" else 8, rep=rep_))
     nrand = 1500 if tier == "quick" else 12000
     for i in range(nrand):
-        specs.append({"kind": "rand", "ndim": 1 + i % 3, "depth": 15 if i % 10 else 40, "obs": "sparse" if (i // 3) % 2 else "dense"})
+        sp = {"kind": "rand", "ndim": 1 + i % 3, "depth": 15 if i % 10 else 40, "obs": "sparse" if (i // 3) % 2 else "dense"}
+        if i % 8 == 5:
+            sp["np_state"] = 1  # np.errstate(all="raise") + unusual print options around the whole history
+        if sp["obs"] == "dense" and i % 4 < 2:
+            sp["neutral"] = 1  # neutral calls (repr, copy, iteration, property reads, ...) between the steps
+        specs.append(sp)
     depth = 2 if tier == "quick" else 3
     for nd in (1, 2, 3):
         for d in range(1, depth + 1):
@@ -271,11 +292,17 @@ UNITS = ["A", "mrad", "none", "1/A", "e", "px"]
 def _rand_cell(rng, nf, kind, rows=None):
     if rows is None:
         rows = int(rng.choice([0, 1, 1, 2, 2, 3, 3, 4, 5]))
-    if kind == "mixed":  # every cell draws its own dtype: int64 and float64 cells side by side, in any order
-        kind = "int" if rng.random() < 0.5 else "float"
+    if kind == "mixed":  # every cell draws its own dtype: int64 / int32 / float64 / float32 cells side by side, in any order
+        dt = [np.int64, np.float64, np.int32, np.float32][int(rng.integers(4))]
+        if dt in (np.int64, np.int32):
+            return rng.integers(-9, 10, size=(rows, nf)).astype(dt)
+        return np.round(rng.normal(size=(rows, nf)) * 4.0, 2).astype(dt)
     if kind == "int":
         return rng.integers(-9, 10, size=(rows, nf)).astype(np.int64)
-    return np.round(rng.normal(size=(rows, nf)) * 4.0, 2)
+    c = np.round(rng.normal(size=(rows, nf)) * 4.0, 2)
+    if rng.random() < 0.1:  # amplitudes of 1e-8, 1e+8 and near the edge of float64 (overflow to inf is compared like any value)
+        c = c * float(rng.choice([1e-8, 1e8, 1e150]))
+    return c
 
 
 def _rand_shape(rng, nd):
@@ -285,13 +312,49 @@ def _rand_shape(rng, nd):
             return shape  # (a few one-cell vectors: shape (1,), (1, 1), (1, 1, 1))
 
 
+_NPINTS = [np.int8, np.uint8, np.int16, np.uint16, np.int32, np.uint32, np.int64, np.uint64, np.intp]
+_NPSINTS = [np.int8, np.int16, np.int32, np.int64]
+
+
+def _npint(rng, types, k):
+    """k as a NumPy integer of a random width that can hold it"""
+    ok = [t for t in types if np.iinfo(t).min <= k <= np.iinfo(t).max]
+    return ok[int(rng.integers(len(ok)))](k)
+
+
+def _layout(rng, c):
+    """an array equal to c in one of the memory layouts a caller may hand over (own base per array, always writable:
+    the vector stores cell arrays by reference, and in-place field arithmetic on a read-only cell raises by design)"""
+    form = int(rng.integers(8))
+    if form <= 2 or c.ndim != 2:
+        return c.copy()
+    if form == 3:
+        return np.asfortranarray(c)
+    if form == 4:  # row-strided view of a taller base
+        big = np.zeros((2 * c.shape[0], c.shape[1]), dtype=c.dtype)
+        big[::2] = c
+        return big[::2]
+    if form == 5:  # column-strided view with an offset
+        big = np.zeros((c.shape[0], 2 * c.shape[1] + 1), dtype=c.dtype)
+        big[:, 1::2] = c
+        return big[:, 1::2]
+    if form == 6:  # transposed view of a (fields, rows) base
+        return np.ascontiguousarray(c.T).T
+    return c[::-1].copy()[::-1]  # negative row stride
+
+
 def _axis(rng, n, kind, unique=False, minlen=1):
     """one axis of an index expression of the requested kind -> (expression, kind actually used)"""
     if kind == "i":
         k = int(rng.integers(n))
-        return (np.int64(k) if rng.random() < 0.15 else k), "i"
+        return (_npint(rng, _NPINTS, k) if rng.random() < 0.3 else k), "i"  # Python int or a NumPy int of any width
     if kind == "n":
-        return int(rng.integers(-n, 0)), "n"
+        k = int(rng.integers(-n, 0))
+        return (_npint(rng, _NPSINTS, k) if rng.random() < 0.3 else k), "n"
+    if kind == "r":
+        a = int(rng.integers(0, n))
+        b = int(rng.integers(a + 1, n + 1))
+        return (range(a, b) if rng.random() < 0.7 else range(b - 1, a - 1, -1)), "r"
     if kind == "s":
         for _ in range(30):
             a = int(rng.integers(0, n))
@@ -309,12 +372,26 @@ def _axis(rng, n, kind, unique=False, minlen=1):
         else:
             k = int(rng.integers(max(1, minlen), n + 2))
             sel = [int(x) for x in rng.integers(0, n, size=k)]
-        return (np.array(sel, dtype=np.int64), "a") if kind == "a" else (sel, "l")
+        if kind == "a":
+            arr = np.array(sel, dtype=type(_npint(rng, _NPINTS, max(sel) if sel else 0)))  # index arrays of every integer dtype ...
+            form = int(rng.integers(4))  # ... contiguous, read-only, strided or reversed views
+            if form == 1:
+                arr.setflags(write=False)
+            elif form == 2:
+                big = np.zeros(2 * len(arr), dtype=arr.dtype)
+                big[::2] = arr
+                arr = big[::2]
+            elif form == 3:
+                arr = arr[::-1].copy()[::-1]
+            return arr, "a"
+        return sel, "l"
     raise core.HarnessError("axis kind %r" % kind)
 
 
 def _pattern_fields(pat, ndim):
     nonint = [i for i, p in enumerate(pat) if p not in "in"]
+    if "r" in pat:
+        return {"ndim": ndim, "idx": ",".join(pat), "short": len(pat) < ndim, "nfancy": len(nonint), "fancy_first": nonint[0] if nonint else -1, "index_form": "range"}
     return {"ndim": ndim, "idx": ",".join(pat), "short": len(pat) < ndim, "nfancy": len(nonint), "fancy_first": nonint[0] if nonint else -1}
 
 
@@ -431,6 +508,57 @@ class Sess:
                 self.ctx.state["quiet"] -= 1
             return self.ctx.check(d is None, "result_mismatch", lambda: "%s: %s" % (what, d), part="block", **f)
         return self.ctx.check(_same(res, mres), "result_mismatch", lambda: "%s returned %s, expected %s" % (what, _brief(res), _brief(mres)), part="cell", **f)
+
+    # ---- calls that must not change anything -------------------------------------------------------
+    def neutral(self):
+        """a call that is neutral on the unchanged tree, on a random live vector, followed by a comparison of all vectors"""
+        rng, ctx = self.rng, self.ctx
+        r, m = self.live[int(rng.integers(len(self.live)))]
+        which = str(rng.choice(["repr", "str", "copy", "properties", "iterate", "asarray_field", "flatten", "deepcopy", "copy_module", "save"], p=[0.14, 0.1, 0.14, 0.14, 0.12, 0.1, 0.1, 0.08, 0.06, 0.02]))
+        name = str(rng.choice(m.fields))
+
+        def do():
+            if which == "repr":
+                return repr(r)
+            if which == "str":
+                return str(r)
+            if which == "copy":
+                return r.copy()
+            if which == "properties":
+                return (r.shape, r.fields, r.units, r.num_fields, r.name, r.metadata, r.data)
+            if which == "iterate":
+                return sum(1 for _ in r)
+            if which == "asarray_field":
+                return np.asarray(r[name])
+            if which == "flatten":
+                return r.flatten()
+            if which == "deepcopy":
+                return _copy.deepcopy(r)
+            if which == "copy_module":
+                return _copy.copy(r).shape
+            import os
+
+            path = os.path.join(ctx.tmp, "neutral_%d.zip" % int(rng.integers(1 << 30)))
+            r.save(path, mode="o")
+            os.remove(path)
+
+        old = (self.op, self.extra)
+        self.op, self.extra = "neutral_call", {"call": which}
+        try:
+            res, exc = self.call(do)
+            if self.expect_ok(exc, "neutral call %s" % which):
+                if which == "iterate":
+                    ctx.check(res == m.shape[0], "result_mismatch", "iterating over the vector yielded %r items for a first axis of %d" % (res, m.shape[0]), part="iterate", **self.fields())
+                ctx.state["quiet"] += 1
+                try:
+                    for j, (r2, m2) in enumerate(self.live):
+                        d = _state_diff(r2, m2) if _class_invariant(ctx, r2, self.fields, "neutral") else "class invariant broken"
+                        ctx.check(d is None, "neutral_call_changed_state", lambda: "after %s: %s" % (which, d), **self.fields())
+                finally:
+                    ctx.state["quiet"] -= 1
+            ctx.count("neutral_calls")
+        finally:
+            self.op, self.extra = old
 
     # ---- returned values that must be new arrays ---------------------------------------------------
     def hold(self, arr, what, monitor=False):
@@ -559,12 +687,14 @@ class Sess:
             ctx.check(what not in shared, "shared_storage", "two live vectors (copy / independently created) share their %s object" % what, what=what, **self.fields())
 
     # ---- construction ------------------------------------------------------------------------------
-    def new_vector(self, shape, nf, via=None):
+    def new_vector(self, shape, nf, via=None, fill=None, long_rows=None):
         from vf.refmodels.vector_model import VecModel
 
         rng, V = self.rng, self.V
         named = rng.random() < 0.7
-        fields = [str(x) for x in rng.permutation(POOL)[:nf]] if named else None
+        fields = [str(x) for x in rng.permutation(POOL if nf <= len(POOL) else ["c%03d" % i for i in range(nf + 20)])[:nf]] if named else None
+        if fill is not None:
+            via = "from_shape"
         units = [str(rng.choice(UNITS)) for _ in range(nf)] if rng.random() < 0.5 else None
         name = "vec%d" % len(self.live) if rng.random() < 0.5 else None
         via = via or ("from_data" if len(shape) == 1 and rng.random() < 0.4 else "from_shape")
@@ -572,7 +702,7 @@ class Sess:
         if via == "from_data":
             cells = [_rand_cell(rng, nf, self.kind) for _ in range(shape[0])]
             aslists = rng.random() < 0.3
-            data = [c.tolist() if (aslists and c.shape[0] > 0) else c.copy() for c in cells]
+            data = [c.tolist() if (aslists and c.shape[0] > 0) else _layout(rng, c) for c in cells]
             kw = {}
             if fields is not None:
                 kw["fields"] = list(fields)
@@ -605,15 +735,22 @@ class Sess:
             w.scribble()
         m = VecModel(shape, mfields, units)
         # populate through the cell-assignment paths; sometimes exactly one populated cell, the others unset
-        only = m.order()[int(rng.integers(len(m.order())))] if rng.random() < 0.15 else None
+        only = m.order()[int(rng.integers(len(m.order())))] if (rng.random() < 0.15 and fill is None) else None
+        first = True
+        if fill is not None:
+            self.ctx.state["quiet"] += 1  # size-threshold cases: no invariant walk over 1e5 cells after each of thousands of assignments
         for ix in m.order():
-            if (only is None and rng.random() < 0.25) or (only is not None and ix != only):
+            if (only is None and rng.random() < (0.25 if fill is None else 1.0 - fill)) or (only is not None and ix != only):
                 continue
-            c = _rand_cell(rng, nf, self.kind)
+            c = _rand_cell(rng, nf, self.kind, rows=long_rows if (first and long_rows) else None)
+            first = False
             how = int(rng.integers(2))
-            _, exc = self.call((lambda: r.__setitem__(ix if len(ix) > 1 or rng.random() < 0.5 else ix[0], c.copy())) if how == 0 else (lambda: r.set_data(c.copy(), *ix)))
+            given = _layout(rng, c)
+            _, exc = self.call((lambda: r.__setitem__(ix if len(ix) > 1 or rng.random() < 0.5 else ix[0], given)) if how == 0 else (lambda: r.set_data(given, *ix)))
             if self.expect_ok(exc, "cell assignment %r" % (ix,)):
                 m.cells[ix] = c.copy()
+        if fill is not None:
+            self.ctx.state["quiet"] -= 1
         return [r, m]
 
     # ---- index expressions ---------------------------------------------------------------------------
@@ -637,12 +774,12 @@ class Sess:
             elif mode in ("list", "list_unique"):
                 kinds = [str(rng.choice(["i", "s"])) for _ in range(nd)]
                 big = [a for a in range(nd) if shape[a] >= 2] if mode == "list_unique" else list(range(nd))
-                kinds[int(rng.choice(big))] = str(rng.choice(["l", "a"]))
+                kinds[int(rng.choice(big))] = str(rng.choice(["l", "a"] if mode == "list_unique" else ["l", "a", "r"]))
             elif mode in ("data", "data_multi"):
-                kinds = [str(rng.choice(["i", "s", "s", "l", "a"])) for _ in range(nd)]
+                kinds = [str(rng.choice(["i", "s", "s", "l", "a"] + (["r"] if mode == "data" else []))) for _ in range(nd)]
                 if all(k == "i" for k in kinds):
                     kinds[int(rng.integers(nd))] = "s"
-                la = [a for a in range(nd) if kinds[a] in "la"]
+                la = [a for a in range(nd) if kinds[a] in "lar"]
                 for a in la[1:]:
                     kinds[a] = "s"
             elif mode == "short":
@@ -744,7 +881,7 @@ def _op_set_cell(S, via):
     idx, pat = S.index(m.shape, "cell_neg" if via == "item" else "cell")
     S.extra = _pattern_fields(pat, m.ndim)
     c = _rand_cell(rng, m.nf, S.kind)
-    given = c.copy()
+    given = _layout(rng, c)
     if via == "item":
         k = S.key(idx)
         S.mutate(lambda r: r.__setitem__(k, given), lambda mm: mm.setitem(idx, c), "v[%s] = array%r" % (_fmt_idx(idx), c.shape))
@@ -827,7 +964,7 @@ def _op_set_block_list(S, mode, via):
                 S.mutate(lambda rr: rr.set_data(got, *idx), same, "set_data(get_data(%s), %s)" % (_fmt_idx(idx), _fmt_idx(idx)))
         return True
     vals = _values_for(S, len(targets))
-    given = [v.copy() for v in vals]
+    given = [_layout(S.rng, v) for v in vals]
     if via == "item":
         k = S.key(idx)
         S.mutate(lambda r: r.__setitem__(k, given), lambda mm: mm.setitem(idx, vals), "v[%s] = list of %d arrays (shape %r)" % (_fmt_idx(idx), len(vals), m.shape), watch=[(given, "value list of __setitem__", False)])
@@ -939,7 +1076,7 @@ def _op_iop(S, op):
         else:
             other = int(rng.choice([1, 2, 3, 5]))
     else:
-        other = float(rng.choice([2.0, -1.5, 0.5, 3.0, 1.25])) if op != "ipow" else float(rng.choice([2.0, 0.5, 1.0, 3.0, 0.0]))
+        other = float(rng.choice([2.0, -1.5, 0.5, 3.0, 1.25])) if op != "ipow" else float(rng.choice([2.0, 0.5, 1.0, 0.0]))  # (x**3.0 goes through pow(), whose last bit depends on the SIMD path numpy picks for the array layout)
         if rng.random() < 0.2:
             other = np.float64(other)
         elif rng.random() < 0.2 and float(other).is_integer():
@@ -1059,6 +1196,16 @@ def _op_field_set(S, how):
         return True
     vals = rng.integers(-20, 21, size=total).astype(np.float64) if S.kind != "float" or rng.random() < 0.3 else np.round(rng.normal(size=total) * 3, 2)
     given = vals.tolist() if rng.random() < 0.2 else vals.copy()
+    if isinstance(given, np.ndarray):
+        form = int(rng.integers(5))
+        if form == 1:
+            given.setflags(write=False)
+        elif form == 2:
+            big = np.zeros(2 * len(vals))
+            big[::2] = vals
+            given = big[::2]
+        elif form == 3:
+            given = vals[::-1].copy()[::-1]
     if how == "set_flattened":
         S.mutate(lambda r: r[name].set_flattened(given), lambda mm: mm.set_flattened(name, vals), "v[%r].set_flattened(%d values)" % (name, total), watch=[(given, "values of set_flattened", True)])
     else:
@@ -1091,6 +1238,8 @@ def _op_field_getitem(S):
 def _fresh_names(S, n):
     have = set(S.m.fields)
     names = [p for p in POOL + ["f%d" % i for i in range(14)] if p not in have]
+    if len(names) < n + 4:
+        names += [g for g in ("g%03d" % i for i in range(len(have) + n + 8)) if g not in have]
     return [str(x) for x in S.rng.permutation(names)[:n]]
 
 
@@ -1607,6 +1756,12 @@ for _o in IOPS:
 
 
 def run_case(spec, idx, ctx):
+    if spec.get("np_state"):
+        # process-global NumPy state a user may have set; the workload of these histories raises no floating-point flag
+        # (small integers and integer-closed arithmetic), so the result must be what it is in the default state
+        with np.errstate(all="raise"), np.printoptions(precision=1, threshold=3, edgeitems=1, suppress=True, linewidth=20):
+            _run_case(spec, idx, ctx)
+        return
     with np.errstate(all="ignore"):
         _run_case(spec, idx, ctx)
 
@@ -1620,9 +1775,15 @@ def _run_case(spec, idx, ctx):
     ctx.state["quiet"] = 1 if S.sparse else 0  # sparse: the invariant wrappers do not read the vectors either
     try:
         S.kind = str(rng.choice(["float", "float", "float", "float", "int", "int", "mixed", "mixed"]))
+        if spec.get("np_state"):
+            S.kind = "mixed"
         shape = _rand_shape(rng, nd)
         nf = int(rng.integers(1, 5)) if rng.random() < 0.85 else int(rng.integers(9, 17))  # some wide peak-table-like vectors
-        pair = S.new_vector(shape, nf)
+        if spec["kind"] == "big":
+            shape, nf = tuple(spec["shape"]), int(spec["nf"])
+            if spec.get("long_rows") and S.kind == "mixed":
+                S.kind = "float"
+        pair = S.new_vector(shape, nf, fill=spec.get("fill"), long_rows=spec.get("long_rows"))
         if pair is None:
             ctx.nontrivial((nd, "construction-failed"), False)
             return
@@ -1631,6 +1792,8 @@ def _run_case(spec, idx, ctx):
             S.post_step(True)
         if spec["kind"] == "exh":
             ops = list(spec["ops"])
+        elif spec["kind"] == "big":
+            ops = [_BIG_OPS[int(i)] for i in rng.integers(len(_BIG_OPS), size=int(spec["depth"]))]
         else:
             ops = [ALPHABET[int(i)] for i in rng.integers(len(ALPHABET), size=int(spec["depth"]))]
         for name in ops:
@@ -1638,6 +1801,8 @@ def _run_case(spec, idx, ctx):
                 break
             if spec["kind"] == "rand" and len(S.live) > 1 and rng.random() < 0.25:
                 S.cur = int(rng.integers(len(S.live)))
+            if spec.get("neutral") and rng.random() < 0.35:
+                S.neutral()
             S.op, S.extra = name, {}
             mutated = DISPATCH[name](S)
             S.done_ops.append(name)
@@ -1665,6 +1830,8 @@ def _run_case(spec, idx, ctx):
         block = any(o in SLICE_OPS for o in S.done_ops)
         ctx.nontrivial("%d|%s|%s" % (nd, "s" if S.sparse else "d", ">".join(S.done_ops)), S.ragged and (schema or block))
         m0 = S.live[0][1]
+        if spec["kind"] == "big":
+            ctx.observe(big=spec["name"], cells=int(np.prod(shape)), fields=nf, max_rows=max([0] + [int(mm.cells[ix].shape[0]) for _, mm in S.live[:1] for ix in mm.populated()]))
         ctx.observe(ndim=nd, shape=list(shape), observation="sparse" if S.sparse else "dense", cell_kind=S.kind, ops=S.done_ops, live_vectors=len(S.live), final_fields=m0.fields, final_rows=[None if m0.cells[ix] is None else int(m0.cells[ix].shape[0]) for ix in m0.order()][:24], aborted=S.abort)
     finally:
         ctx.state["sess"] = None
@@ -1680,6 +1847,8 @@ def summarize(all_cases, counters, extras):
         "sparsely_observed_histories": counters.get("sparse_histories", 0),
         "returned_arrays_watched": counters.get("eval:returned_value_changed", 0),
         "arguments_checked_unchanged": counters.get("eval:argument_modified", 0),
+        "neutral_calls_between_steps": counters.get("neutral_calls", 0),
+        "size_threshold_cases": sorted(set(c["obs"].get("big") for c in all_cases if c["obs"].get("big"))),
         "arguments_scribbled_after_the_call": counters.get("arguments_scribbled", 0),
         "failed_block_assignments_that_kept_some_cells": counters.get("partial_failures_cells_kept", 0),
         "failed_block_assignments_that_kept_nothing": counters.get("partial_failures_nothing_kept", 0),
